@@ -484,8 +484,8 @@ theorem eeLoop_noPanic (b : Bytes) (pos : Nat) (offsets : List Nat) : ∀ (fuel 
 theorem read31_noPanic (b : Bytes) (pos : Nat) : (read31 b pos).noPanic := by
   unfold read31
   refine bind_noPanic (readBytes_noPanic _ _ _ _ (by omega)) (fun buf hbuf => ?_)
-  obtain ⟨co, hco, _⟩ := buf_w16 hbuf "gpos.go:698#buf[0],buf[1]" 0 (by omega)
-  obtain ⟨n, hn, hnlt⟩ := buf_w16 hbuf "gpos.go:699#buf[2],buf[3]" 2 (by omega)
+  obtain ⟨co, hco, _⟩ := buf_w16 hbuf "gpos.go:702#buf[0],buf[1]" 0 (by omega)
+  obtain ⟨n, hn, hnlt⟩ := buf_w16 hbuf "gpos.go:703#buf[2],buf[3]" 2 (by omega)
   rw [hco, ok_bind, hn, ok_bind, mkSlice_ok' _ _ _ (by omega), ok_bind]
   refine bind_noPanic (readWords_noPanic _ _ _ _ _ _) (fun o ho => ?_)
   obtain ⟨hol, _⟩ := readWords_ok _ _ _ _ _ _ _ _ ho
@@ -497,12 +497,8 @@ theorem read31_noPanic (b : Bytes) (pos : Nat) : (read31 b pos).noPanic := by
 
 /-! ## readGposSubtable -/
 
-/-- `readGposSubtable` (readers of lookup types 1–3; a key of another reader is `err "other"`)
-never panics: all bytes, all positions, every lookup type -/
-theorem readSubtable_noPanic (b : Bytes) (pos tp : Nat) : (readSubtable b pos tp).noPanic := by
-  unfold readSubtable
-  refine bind_noPanic (readU16_noPanic _ _ _) (fun format _ => ?_)
-  dsimp only
+theorem dispatchKey_noPanic (b : Bytes) (pos key : Nat) : (dispatchKey b pos key).noPanic := by
+  unfold dispatchKey
   split
   · exact bind_noPanic (read11_noPanic _ _) (fun r _ => pure_noPanic _)
   split
@@ -514,5 +510,20 @@ theorem readSubtable_noPanic (b : Bytes) (pos tp : Nat) : (readSubtable b pos tp
   split
   · exact bind_noPanic (read31_noPanic _ _) (fun r _ => pure_noPanic _)
   split <;> exact True.intro
+
+/-- `readGposSubtable` (repaired; readers of lookup types 1–3; a key of another reader is
+`err "other"`) never panics: all bytes, all positions, every lookup type -/
+theorem readSubtable_noPanic (b : Bytes) (pos tp : Nat) : (readSubtable b pos tp).noPanic := by
+  unfold readSubtable
+  refine bind_noPanic (readU16_noPanic _ _ _) (fun format _ => ?_)
+  dsimp only
+  split
+  · exact True.intro
+  · exact dispatchKey_noPanic _ _ _
+
+/-- the dispatcher before the repair did not panic either -/
+theorem readSubtableOld_noPanic (b : Bytes) (pos tp : Nat) : (readSubtableOld b pos tp).noPanic := by
+  unfold readSubtableOld
+  exact bind_noPanic (readU16_noPanic _ _ _) (fun format _ => dispatchKey_noPanic _ _ _)
 
 end SfntV.Total.GposSub
